@@ -740,7 +740,10 @@ func (s *programState) makeAllotment(monetary *big.Int, items []parser.Allotment
 	for i, item := range items {
 		switch allotment := item.(type) {
 		case *parser.RatioLiteral:
-			rat := allotment.ToRatio()
+			rat, ok := allotment.ToRatio()
+			if !ok {
+				return nil, DivideByZero{Range: allotment.Range, Numerator: allotment.Numerator}
+			}
 			totalAllotment.Add(totalAllotment, rat)
 			allotments = append(allotments, rat)
 		case *parser.Variable:
